@@ -18,7 +18,10 @@ CLAIM = dict(
           "complete and which are `_partial` (open lemma as explicit hypothesis)."),
     technique="Lean 4 theorems over a hand-written model + differential correspondence + Lean spec as oracle")
 
-THEOREMS = ["removeDefault_equiv", "removeDefault_length", "removeDefault_target", "inv_routeEquiv", "inv_init", "apply_equiv", "insertionIndex_correct", "refine_ok", "orderedCovering_inv", "orderedCovering_equiv", "orderedCovering_target", "minimise_equiv", "runMethod_equiv", "runMethod_target", "minimiseTable_equiv", "minimiseTable_failure", "minimiseTables_equiv"]
+THEOREMS = ["removeDefault_equiv", "removeDefault_length", "removeDefault_target", "inv_routeEquiv", "inv_init",
+            "apply_equiv", "insertionIndex_correct", "refine_ok", "orderedCovering_inv", "orderedCovering_equiv",
+            "orderedCovering_target", "minimise_equiv", "runMethod_equiv", "runMethod_target", "minimiseTable_equiv",
+            "minimiseTable_failure", "minimiseTables_equiv", "oracle_decides", "oracle_counterexample"]
 
 RULE = ("tables of 0-40 entries over 3-10 active key bits embedded at random positions of the 32-bit space (other "
         "positions all-X or fixed to a common value), ternary patterns with table-specific X density, orthogonal "
